@@ -141,9 +141,145 @@ def check_set(points):
     return out
 
 
+
+# ---- layout objects under histories of accesses ---------------------------------------------------------------------
+# A layout / detuning map is a frozen, hashable value.  Every history of <= DEPTH steps over the menu below is run on ONE
+# object built from a caller-owned array; after every step the object must still be indistinguishable from a pristine
+# object built from a copy of the original coordinates (trap ids, hash, equality, registers defined from ids, coordinate
+# lookups, detuning-map weights).  Steps are uses of the public API, and a caller editing what it owns: its own
+# constructor argument and the containers / arrays the accessors handed out.
+H_BASE = {
+    "2d": [(5.0, 5.0), (0.0, 0.0), (5.0, 0.0), (0.0, 5.0), (10.0, 5.0)],
+    "3d": [(5.0, 5.0, 1.0), (0.0, 0.0, 0.0), (5.0, 0.0, -2.0), (0.0, 5.0, 3.0)],
+}
+H_OPS = ["edit-input", "edit-input-list", "td-edit-value", "td-pop", "coords-edit", "sorted-coords-edit", "hash", "lookup", "define-register",
+         "edit-register-qubits", "define-detmap", "detmap-edit-weights", "eq-ref"]
+
+
+def hist_cases(tier):
+    depth = 3 if tier == "quick" else 4
+    out = []
+    for kind in ("2d", "3d"):
+        for src in ("array", "list"):
+            for d in range(1, depth + 1):
+                for h in itertools.product(range(len(H_OPS)), repeat=d):
+                    names = [H_OPS[i] for i in h]
+                    if src == "array" and "edit-input-list" in names or src == "list" and "edit-input" in names:
+                        continue
+                    out.append(("hist", kind, src, h))
+    return out
+
+
+def _facts(L, base):
+    """Everything the property speaks about, read through the public API."""
+    import numpy as np
+    from pulser.register.register_layout import RegisterLayout
+
+    f = {}
+    td = L.traps_dict
+    f["traps_dict"] = tuple((k, tuple(np.asarray(v, dtype=float).tolist())) for k, v in sorted(td.items()))
+    f["hash"] = L.static_hash()
+    f["n"] = L.number_of_traps
+    try:
+        f["lookup"] = tuple(L.get_traps_from_coordinates(*[np.array(c) for c in base]))
+    except Exception as e:
+        f["lookup"] = f"raises {type(e).__name__}"
+    try:
+        ids = list(range(min(3, L.number_of_traps)))[::-1]
+        reg = L.define_register(*ids, qubit_ids=["c", "a", "b"][: len(ids)])
+        f["register"] = tuple((q, tuple(np.asarray(p.as_array() if hasattr(p, "as_array") else p, dtype=float).tolist())) for q, p in reg.qubits.items())
+        dm = L.define_detuning_map({0: 0.25, L.number_of_traps - 1: 0.75})
+        f["detmap"] = tuple(sorted((q, w) for q, w in dm.get_qubit_weight_map(reg.qubits).items()))
+    except Exception as e:
+        f["register"] = f"raises {type(e).__name__}: {e}"[:80]
+    return f
+
+
+def check_hist(kind, src, h):
+    import numpy as np
+    from pulser.register.register_layout import RegisterLayout
+
+    base = H_BASE[kind]
+    ref = RegisterLayout([tuple(c) for c in base], slug="S")
+    want = _facts(ref, base)
+    arg = np.array(base, dtype=float) if src == "array" else [list(c) for c in base]
+    L = RegisterLayout(arg, slug="S")
+    held = {}
+    out = []
+    names = [H_OPS[i] for i in h]
+    for step_no, name in enumerate(names):
+        try:
+            if name == "edit-input":
+                arg[0] += 2.5
+            elif name == "edit-input-list":
+                arg[0][0] += 2.5
+                arg.append([99.0] * len(base[0]))
+            elif name == "td-edit-value":
+                d = L.traps_dict
+                d[1][0] += 2.5
+            elif name == "td-pop":
+                d = L.traps_dict
+                d.pop(2)
+                d.pop(0)
+            elif name == "coords-edit":
+                c = L.coords
+                c[0] += 1.0
+            elif name == "sorted-coords-edit":
+                c = L.sorted_coords
+                c[:] = 0.0
+            elif name == "hash":
+                L.static_hash()
+                hash(L)
+            elif name == "lookup":
+                L.get_traps_from_coordinates(np.array(base[0]))
+            elif name == "define-register":
+                held["reg"] = L.define_register(0, 1, qubit_ids=["x", "y"])
+            elif name == "edit-register-qubits":
+                if "reg" in held:
+                    q = held["reg"].qubits
+                    for v in q.values():
+                        try:
+                            np.asarray(v.as_array() if hasattr(v, "as_array") else v)[...] += 1.0
+                        except Exception:
+                            pass
+            elif name == "define-detmap":
+                held["dm"] = L.define_detuning_map({0: 0.5, 1: 0.5})
+            elif name == "detmap-edit-weights":
+                if "dm" in held:
+                    w = held["dm"].weights
+                    try:
+                        w[0] = 0.9
+                    except Exception:
+                        pass
+                    sw = held["dm"].sorted_weights
+                    sw[...] = 0.0
+                    if dict(held["dm"].get_qubit_weight_map({"p": base[1]})) != {"p": 0.5}:
+                        # base[1] sorts first in both menus (the origin): weight of trap 0
+                        out.append(("C19:object-history:detuning-map-changed:" + "+".join(sorted(set(names[: step_no + 1]))),
+                                    f"{kind}/{src} after {names[: step_no + 1]}"))
+            elif name == "eq-ref":
+                L == ref
+        except Exception as e:
+            out.append((f"C19:object-history:step-raises:{name}:{type(e).__name__}", f"{kind}/{src} after {names[:step_no]}: {e}"[:200]))
+            break
+        got = _facts(L, base)
+        bad = sorted(k for k in want if got.get(k) != want[k])
+        if (L == ref) is not True or (ref == L) is not True:
+            bad.append("equality")
+        if bad:
+            culprit = "+".join(sorted(set(names[: step_no + 1])))
+            out.append((f"C19:object-history:{'+'.join(bad)}:after:{culprit}",
+                        f"{kind} layout built from a caller-owned {src}; after {names[: step_no + 1]} it differs from a pristine layout of the "
+                        f"same coordinates in {bad}: e.g. traps_dict {got['traps_dict'][:2]} vs {want['traps_dict'][:2]}"[:400]))
+            break
+    return out + [("@hist", "")]
+
+
 def worker(points):
     with warnings.catch_warnings():
         warnings.simplefilter("ignore")
+        if points and points[0] == "hist":
+            return check_hist(points[1], points[2], tuple(points[3]))
         return check_set(tuple(tuple(p) for p in points))
 
 
@@ -160,12 +296,23 @@ def run(tier, seed):
                 classes[fp] = classes.get(fp, 0) + 1
             else:
                 res.add(Violation(fp, d, {"engine": "grid", "points": [list(p) for p in s]}, size=len(s)))
+    hc = hist_cases(tier)
+    for c, r in zip(hc, gridx.run(worker, hc, chunksize=32)):
+        for fp, d in r:
+            if fp.startswith("@"):
+                classes[fp] = classes.get(fp, 0) + 1
+            else:
+                res.add(Violation(fp, d, {"engine": "grid", "points": ["hist", c[1], c[2], list(c[3])]}, size=len(c[3])))
     res.coverage = dict(
-        evaluations=perms, distinct_nontrivial=len(sets), exhaustive=True, point_sets=len(sets), outcome_classes=classes,
+        evaluations=perms + len(hc), distinct_nontrivial=len(sets) + classes.get("@hist", 0), exhaustive=True, point_sets=len(sets),
+        object_histories=len(hc), outcome_classes=classes,
         rule="every subset of size 1-3 of a 21-point 2D grid and an 18-point 3D grid built from {-1,-1e-9,0,1,1+4e-7,1+6e-7,2} "
              "(plus five 4/5-point sets with ties in x,y), each in EVERY permutation; for each set every ordered selection of <= 3 "
              "trap ids with unsorted qubit ids, every mapping order of a mappable register, weights attached to points; "
-             "evaluations = layouts constructed (set x permutation), distinct_nontrivial = coordinate sets",
+             "evaluations = layouts constructed (set x permutation) + object histories, distinct_nontrivial = coordinate sets + "
+             "histories; object histories: every sequence of <= 3 (thorough 4) steps over 12 uses / caller-side edits (constructor "
+             "argument, containers and arrays returned by traps_dict / coords / sorted_coords / register.qubits / weights) on one "
+             "2D / 3D layout built from an array or a list, compared after every step with a pristine layout of the same coordinates",
         samples=[[list(p) for p in sets[i]] for i in (0, len(sets) // 2, len(sets) - 1)])
     res.assumptions = ["coordinates that coincide only after rounding to 1e-6 are a separately reported class"]
     return res
